@@ -132,10 +132,10 @@ def runDv (chk : Bool) (toks : List String) : M Unit := do
     | ["gs", i, o] => let i ← pIdx w i; outS := outS.set! i (← need (pOutDatum pState o)); emit "-"
     | ["gc", i, o] => let i ← pIdx w i; outC := outC.set! i (← need (pOutDatum pCmd o)); emit "-"
     | ["rb", i, j] =>
-      -- the reads of terminal i while the caller holds `borrow_mut()` of terminal j: `RefCell` refuses when j is i or i's partner
+      -- the STATE read of terminal i while the caller holds `borrow_mut()` of terminal j: `RefCell` refuses when j is i or i's partner
       let i ← pIdx w i; let j ← pIdx w j
       if j == i || (w.t i).other == some j then throw (.panic .borrow)
-      emit (sRead w i)
+      emit (sOptOut sState (w.getState i))
     | ["tu", i] =>
       let i ← pIdx w i
       let r := w.terminalUpdate i (fo i)
